@@ -603,7 +603,7 @@ class C05(Prop):
         rel_s, rel_c = "h3/src/server/connection.rs", "h3/src/client/connection.rs"
         server, client = src(rel_s), src(rel_c)
         need(rel_s, server, "poll_accept_request_stream_internal",
-             r"^let _ = self\.poll_control\(cx\)\?; let _ = self\.poll_requests_completion\(cx\); loop \{ let conn = "
+             r"^let _ = self\.poll_control\(cx\)\?; let _ = self\.poll_requests_completion\(cx\); (?:let mut \w+ = false; )?loop \{ let conn = "
              r"self\.inner\.poll_accept_bi\(cx\)\?;", "does not run poll_control, then inner.poll_accept_bi")
         need(rel_s, server, "poll_control", r"^while \(self\.poll_next_control\(cx\)\?\)\.is_ready\(\) \{\} Poll::Pending$",
              "is not the loop over poll_next_control")
